@@ -346,6 +346,74 @@ func newlyCompleted(pre, post *Dump) ([]uuid.UUID, int64) {
 	return ids, at
 }
 
+// orderByForwardLinks orders the dead-lettered source deliveries so that a source whose
+// forward is the predecessor (not_before) of another source's forward comes first: the
+// order in which the code processed them is otherwise unobservable, and it matters only
+// through exactly these links.
+func orderByForwardLinks(srcs []uuid.UUID, pre, post *Dump) []uuid.UUID {
+	fresh := newDels(pre, post)
+	srcOfMsg := map[uuid.UUID]uuid.UUID{}
+	for _, s := range srcs {
+		if d := pre.del(s); d != nil {
+			srcOfMsg[d.Msg] = s
+		}
+	}
+	isFresh := map[uuid.UUID]Triple{}
+	for _, t := range fresh {
+		isFresh[t.ID] = t
+	}
+	before := map[uuid.UUID]map[uuid.UUID]bool{} // before[x][y]: y must come before x
+	for _, t := range fresh {
+		row := post.del(t.ID)
+		if row == nil || row.NotBefore == nil {
+			continue
+		}
+		if pt, ok := isFresh[*row.NotBefore]; ok {
+			x, okx := srcOfMsg[t.Msg]
+			y, oky := srcOfMsg[pt.Msg]
+			if okx && oky && x != y {
+				if before[x] == nil {
+					before[x] = map[uuid.UUID]bool{}
+				}
+				before[x][y] = true
+			}
+		}
+	}
+	out := append([]uuid.UUID(nil), srcs...)
+	sort.Slice(out, func(i, j int) bool { return uuidLess(out[i], out[j]) })
+	// simple repeated insertion (tiny lists)
+	var res []uuid.UUID
+	placed := map[uuid.UUID]bool{}
+	for len(res) < len(out) {
+		progress := false
+		for _, x := range out {
+			if placed[x] {
+				continue
+			}
+			ready := true
+			for y := range before[x] {
+				if !placed[y] {
+					ready = false
+				}
+			}
+			if ready {
+				res = append(res, x)
+				placed[x] = true
+				progress = true
+			}
+		}
+		if !progress { // cycle: give up on ordering
+			for _, x := range out {
+				if !placed[x] {
+					res = append(res, x)
+					placed[x] = true
+				}
+			}
+		}
+	}
+	return res
+}
+
 var jobKinds = []string{"PruneCompletedDeliveries", "PruneExpiredDeliveries", "PruneCompletedMessages",
 	"PruneDeletedSubDeliveries", "PruneDeletedSubs", "PruneDeletedTopics", "ExpireSubs", "DeadLetterSweep"}
 
@@ -719,6 +787,7 @@ func fillOracles(op *Op, resp *Resp, pre, post *Dump, lo int64) {
 					op.Others = append(op.Others, id)
 				}
 			}
+			op.Others = orderByForwardLinks(op.Others, pre, post)
 		}
 		op.FreshDels = newDels(pre, post)
 	case "SeekTime", "SeekSnap":
@@ -821,7 +890,7 @@ func fillOracles(op *Op, resp *Resp, pre, post *Dump, lo int64) {
 		case "DeadLetterSweep":
 			ids, at := newlyCompleted(pre, post)
 			if len(ids) > 0 {
-				op.Chosen = ids
+				op.Chosen = orderByForwardLinks(ids, pre, post)
 				op.WNow = at
 			}
 			op.FreshDels = newDels(pre, post)
